@@ -1011,4 +1011,21 @@ Section RT.
     unfold parse_top. rewrite (noi e H); [|reflexivity|apply no_sep_cons; (reflexivity || discriminate)].
     rewrite (print_parse_cond e H rest). reflexivity.
   Qed.
+
+  (* the same in template-data mode (`data="{{ ... }}"` of <template is>): the value there is always an
+     object literal, printed with its braces *)
+  Theorem print_parse_template_data : forall fs, wf (EObj fs) -> forall rest,
+    ExprParse.binding true (pr (EObj fs) ++ 125%N :: 125%N :: rest) = (Some (EObj fs), rest).
+  Proof.
+    intros fs H rest. unfold ExprParse.binding.
+    assert (Hs : forall x, skip (pr (EObj fs) ++ x) = pr (EObj fs) ++ x).
+    { intro x. rewrite pr_obj. change (lit "{") with [123%N]. cbn [app]. apply skip_head; [reflexivity|discriminate]. }
+    rewrite Hs. rewrite pr_obj at 1. change (lit "{") with [123%N]. change (lit "}}") with [125%N; 125%N]. cbn [app starts_with].
+    change ((125 =? 123)%N) with false. cbn [andb].
+    unfold parse_top.
+    assert (Hn : is_object_inner true (pr (EObj fs) ++ 125%N :: 125%N :: rest) = false).
+    { unfold is_object_inner, field_name. rewrite Hs. rewrite pr_obj. change (lit "{") with [123%N]. cbn [app].
+      change (is_ident_start 123) with false. cbv iota. change (lit "...") with [46%N; 46%N; 46%N]. reflexivity. }
+    rewrite Hn, (print_parse_cond (EObj fs) H rest). reflexivity.
+  Qed.
 End RT.
